@@ -48,3 +48,35 @@ Proof.
     + intros E. rewrite R2. unfold drop_reply. now rewrite E.
 Qed.
 Print Assumptions c13_abandon_single.
+
+(* the same for a search in flight (its routing entry is in the search map): the item channel is closed, so the stream's next() ends with an error *)
+Theorem c13_abandon_search s o q c t o' c' :
+  fix9 (fx s) = true -> is_running s = true -> opq s = o :: q -> getop s o = Some c -> o_kind c = KAbandon t ->
+  alookup t (rmap s) = None -> alookup t (smap s) = Some o' -> getop s o' = Some c' -> o' <> o ->
+  let s' := step s DrvOp in
+  In (o_mid c, KAbandon t) (wout s') /\
+  alookup t (rmap s') = None /\ alookup t (smap s') = None /\
+  ~ In t (inuse s') /\ ~ In (o_mid c) (inuse s') /\
+  (exists c'', getop s' o' = Some c'' /\ o_chan c'' = false).             (* the stream's item channel is closed *)
+Proof.
+  intros F9 Hr Eq Hc Hk Htr Ht Hc' Hne. cbv zeta. unfold step. rewrite Hr, Eq, Hc, Hk, F9. cbn [negb andb].
+  set (s0 := s <| opq := q |> <| wout ::= fun w => w ++ [(o_mid c, KAbandon t)] |>).
+  assert (Hh : abandon_hit s0 t = true) by (unfold abandon_hit; change (rmap s0) with (rmap s); change (smap s0) with (smap s); now rewrite Htr, Ht).
+  rewrite Hh.
+  set (s1 := drop_entry (rmap s0) t drop_reply s0 <| rmap ::= aremove t |>).
+  set (s2 := drop_entry (smap s1) t close_chan s1 <| smap ::= aremove t |>).
+  repeat split.
+  - cbn [wout set updop]. unfold s2, s1, s0. repeat first [rewrite wout_drop_entry | progress cbn [wout set]]. apply in_or_app. right. now left.
+  - cbn [rmap set updop]. unfold s2. cbn [rmap set]. rewrite rmap_drop_entry. unfold s1. cbn [rmap set]. rewrite rmap_drop_entry. apply alookup_aremove.
+  - cbn [smap set updop]. unfold s2. cbn [smap set]. apply alookup_aremove.
+  - cbn [inuse set updop]. apply not_In_rem.
+  - cbn [inuse set updop]. intros H. apply In_rem in H as [_ H]. now apply not_In_rem in H.
+  - assert (E1 : s1 = s0 <| rmap ::= aremove t |>) by (unfold s1, drop_entry; change (rmap s0) with (rmap s); now rewrite Htr).
+    assert (G2 : getop s2 o' = Some (close_chan c')).
+    { unfold s2. change (getop (drop_entry (smap s1) t close_chan s1) o' = Some (close_chan c')). unfold drop_entry. rewrite E1. cbn [smap set]. change (smap s0) with (smap s). rewrite Ht.
+      apply getop_updop_same. exact Hc'. }
+    exists (close_chan c'). split; [|reflexivity].
+    change (getop (updop o (fill_reply None) (s2 <| inuse ::= rem (o_mid c) |> <| inuse ::= rem t |>)) o' = Some (close_chan c')).
+    rewrite getop_updop_ne by exact Hne. exact G2.
+Qed.
+Print Assumptions c13_abandon_search.
